@@ -399,7 +399,7 @@ func fullState(parts ...*clusterpb.Part) []byte {
 
 func TestHostileReceivePath(t *testing.T) {
 	run := vf.Cur()
-	sub := run.Sub("hostile-receive-path", "one real peer (no network traffic needed) with real silence and notification-log states; its delegate's NotifyMsg and MergeRemoteState are fed, in random order: arbitrary bytes, valid envelopes with unknown state keys, known keys with malformed/truncated payloads, duplicates, full-state messages whose parts are ordered [unknown key, valid part], and valid updates in between; no panic; after every delivery the understood states equal the reference (last-writer-wins over the VALID deliveries so far, nothing corrupted), and every valid update delivered in its own message - or after an unknown-key part of a full-state message - is merged; non-trivial = every case; distinct by (seed)", 50)
+	sub := run.Sub("hostile-receive-path", "one real peer (no network traffic needed) with real silence and notification-log states; its delegate's NotifyMsg and MergeRemoteState are fed, in random order: arbitrary bytes, valid envelopes with unknown state keys, known keys with malformed/truncated payloads, duplicates, full-state messages whose parts are ordered [unknown key, valid part], and valid updates in between, and further states are registered (AddState) while that traffic flows; no panic, no call that never returns; after every delivery the understood states equal the reference (last-writer-wins over the VALID deliveries so far, nothing corrupted), and every valid update delivered in its own message - or after an unknown-key part of a full-state message - is merged; non-trivial = every case; distinct by (seed)", 50)
 	n := run.N(300, 30000)
 	vf.Parallel(t, n, 8, func(t *testing.T, i int) {
 		r := sub.Rand(i)
@@ -447,15 +447,24 @@ func TestHostileReceivePath(t *testing.T) {
 		}
 		deliver := func(full bool, b []byte, what string) bool {
 			steps = append(steps, what)
-			pan := func() (p any) {
+			done := make(chan any, 1)
+			go func() {
+				var p any
+				defer func() { done <- p }()
 				defer func() { p = recover() }()
 				if full {
 					nd.peer.VerifMergeRemoteState(b)
 				} else {
 					nd.peer.VerifNotifyMsg(b)
 				}
-				return nil
 			}()
+			var pan any
+			select {
+			case pan = <-done:
+			case <-time.After(15 * time.Second): // a receive path that never returns (lock never released)
+				sub.Violation("receive-path-blocked", map[string]any{"seed": sub.Seed(i), "steps": steps})
+				return false
+			}
 			if pan != nil {
 				sub.Violation("receive-path-panics", map[string]any{"seed": sub.Seed(i), "panic": fmt.Sprint(pan), "steps": steps})
 				return false
@@ -464,7 +473,22 @@ func TestHostileReceivePath(t *testing.T) {
 		}
 		for k := 0; k < 30; k++ {
 			var ok bool
-			switch r.Intn(9) {
+			switch r.Intn(10) {
+			case 9: // a further state is registered while traffic is flowing (as during start-up, when the
+				// states are added one after the other and peers already gossip)
+				steps = append(steps, "AddState of a further key")
+				done := make(chan struct{})
+				go func() {
+					nd.peer.AddState(fmt.Sprintf("late-%d", k), lateState{}, nd.reg)
+					close(done)
+				}()
+				select {
+				case <-done:
+					ok = verify()
+				case <-time.After(15 * time.Second):
+					sub.Violation("registering-a-state-blocked-after-hostile-traffic", map[string]any{"seed": sub.Seed(i), "steps": steps})
+					ok = false
+				}
 			case 0:
 				b := make([]byte, r.Intn(60))
 				r.Read(b)
@@ -530,6 +554,11 @@ func TestHostileReceivePath(t *testing.T) {
 		sub.Count("deliveries", int64(len(steps)))
 	})
 }
+
+type lateState struct{}
+
+func (lateState) MarshalBinary() ([]byte, error) { return nil, nil }
+func (lateState) Merge([]byte) error             { return nil }
 
 func encodeNfl(e *nfpb.MeshEntry) []byte {
 	return silhEncodeAny(e)
